@@ -516,11 +516,27 @@ func projection(ctx *core.Ctx, progs []*dsl.Program, kind wire.FKind, rule strin
 				decodeChecks(ctx, pc, cc, i, si, st, only)
 			}
 		}
+		if kind == wire.KChecksum {
+			regChecks(ctx, pc, cc, st)
+		}
 	})
 	if kind == wire.KMatch {
 		unmappedChecks(ctx, cases, langs, st)
 	}
 	cov := st.coverage(rule, cases)
+	if kind == wire.KChecksum {
+		nseq := 0
+		for _, pc := range cases {
+			nseq += len(pc.RegSeqs)
+		}
+		var rs []string
+		for k := range st.regStates {
+			rs = append(rs, k)
+		}
+		sort.Strings(rs)
+		cov["registry_sequences"] = map[string]any{"depth": regDepth(ctx), "processes_per_target": nseq, "encodes_checked": st.regEvals, "distinct_(removed,first_use)_states_observed": rs,
+			"rule": "alphabet {UNREG n, REG n}; all operation sequences of the stated depth from a fresh process x first encode after 0..depth operations; one encode after every later operation; oracle = reference encoder with exactly the names removed at that moment"}
+	}
 	return ctx.Finish("exploration", cov)
 }
 
@@ -743,6 +759,12 @@ func matchPrograms() []*dsl.Program {
 	mk("big-keys-u32", dsl.Root("Msg", dsl.Sc("u32", "Kind"), dsl.Mt("Kind", "Body", dsl.K("Alpha", "2147483647"), dsl.K("Beta", "2147483648"), dsl.K("Gamma", "4294967295"))))
 	mk("big-keys-u64", dsl.Root("Msg", dsl.Sc("u64", "Kind"), dsl.Mt("Kind", "Body", dsl.K("Alpha", "9223372036854775807"), dsl.K("Beta", "9223372036854775808"), dsl.K("Gamma", "18446744073709551615"))))
 	mk("big-keys-i64", dsl.Root("Msg", dsl.Sc("i64", "Kind"), dsl.Mt("Kind", "Body", dsl.K("Alpha", "9223372036854775807"), dsl.K("Beta", "4294967296"), dsl.K("Gamma", "1"))))
+	// one extreme key per table (several extreme keys in one table are covered above)
+	mk("one-max-key-u64", dsl.Root("Msg", dsl.Sc("u64", "Kind"), dsl.Mt("Kind", "Body", dsl.K("Alpha", "1"), dsl.K("Beta", "2", "9223372036854775806"), dsl.K("Gamma", "18446744073709551615"))))
+	mk("one-2p63-key-u64", dsl.Root("Msg", dsl.Sc("u64", "Kind"), dsl.Mt("Kind", "Body", dsl.K("Alpha", "1"), dsl.K("Beta", "9223372036854775808"), dsl.K("Gamma", "3"))))
+	mk("one-max-key-i64", dsl.Root("Msg", dsl.Sc("i64", "Kind"), dsl.Mt("Kind", "Body", dsl.K("Alpha", "1"), dsl.K("Beta", "9223372036854775807"), dsl.K("Gamma", "3"))))
+	mk("one-max-key-u32", dsl.Root("Msg", dsl.Sc("u32", "Kind"), dsl.Mt("Kind", "Body", dsl.K("Alpha", "1"), dsl.K("Beta", "4294967295"), dsl.K("Gamma", "3"))))
+	mk("case-keys", dsl.Root("Msg", dsl.Ds("Kind"), dsl.Mt("Kind", "Body", dsl.K("Alpha", `"ab"`), dsl.K("Beta", `"AB"`), dsl.K("Gamma", `"Ab"`))))
 	mk("leading-zero-keys", dsl.Root("Msg", dsl.Sc("u16", "Kind"), dsl.Mt("Kind", "Body", dsl.K("Alpha", "7"), dsl.K("Beta", "10"), dsl.K("Gamma", "100"))))
 	mk("string-list-6", dsl.Root("Msg", dsl.Ds("Kind"), dsl.Mt("Kind", "Body", dsl.K("Alpha", `"A"`, `"B"`, `"C"`, `"D"`, `"E"`, `"F"`), dsl.K("Beta", `"G"`), dsl.K("Empty", `"H"`))))
 	mk("zchar-key", dsl.Root("Msg", dsl.Zc(4, "Kind"), dsl.Mt("Kind", "Body", dsl.K("Alpha", `"AB"`), dsl.K("Beta", `"CDEF"`))))
@@ -752,6 +774,7 @@ func matchPrograms() []*dsl.Program {
 
 // C06: checksum fields cover exactly the preceding bytes.
 func C06(ctx *core.Ctx) int {
+	regSequencesOn = true
 	all := append(append(append(dsl.P1(), dsl.P4()...), dsl.P5()...), dsl.P6()...)
 	base := filterProgs(all, func(p *dsl.Program) bool { return hasKind(p, dsl.Checksum) })
 	base = append(base, checksumPrograms()...)
@@ -777,5 +800,12 @@ func checksumPrograms() []*dsl.Program {
 		dsl.Pk("Alpha", dsl.Sc("u32", "A1"), dsl.Ds("A2")), dsl.Pk("Empty"))
 	mk("two-checksums", dsl.Root("Msg", dsl.Sc("u8", "A"), dsl.Ck("u16", "SumA", "SUMU16"), dsl.Sc("u8", "B"), dsl.Ck("u32", "SumB", "SUMU32")))
 	mk("first-field", dsl.Root("Msg", dsl.Ck("u16", "Sum", "SUMU16"), dsl.Sc("u8", "B")))
+	// the only calculated fields of the file sit inside inline objects (whatever a generator decides per file
+	// by scanning the top-level packets does not see them)
+	for _, t := range []string{"u8", "u16", "u32", "i64"} {
+		mk("inline-only-"+t, dsl.Root("Msg", dsl.Sc("u32", "Seq"), dsl.Ds("Text"), dsl.In("Inner", dsl.Sc("u8", "X"), dsl.Ck(t, "Sum", "SUM"+strings.ToUpper(t)), dsl.Sc("u8", "Y"))))
+	}
+	mk("inline-in-inline-only", dsl.Root("Msg", dsl.Sc("u16", "Seq"), dsl.In("Outer", dsl.Ds("Text"), dsl.In("Inner", dsl.Sc("u8", "X"), dsl.Ck("u32", "Sum", "SUMU32")))))
+	mk("inline-only-unregistered", dsl.Root("Msg", dsl.Sc("u32", "Seq"), dsl.In("Inner", dsl.Sc("u8", "X"), dsl.Ck("u16", "Sum", "NOSUCHU16"))))
 	return out
 }
